@@ -54,6 +54,7 @@ func GetBlock() {
 	cfg.SkipBlockValidation = true // body-hash binding is C34's subject
 	c := blockfetch.VerifNewClient(&cfg, connId())
 	matches := sym.Bool("served_block_matches")
+	sameSlot := sym.Bool("served_block_in_requested_slot")
 	point := pcommon.Point{Slot: sym.U64("slot"), Hash: sym.Bytes("requested_hash", 32)}
 	var wrapped []byte
 	if sym.Symbolic() {
@@ -61,6 +62,8 @@ func GetBlock() {
 		// (idealised) hash of those bytes
 		blk := &shelley.ShelleyBlock{BlockHeader: &shelley.ShelleyBlockHeader{}}
 		blk.BlockHeader.SetCbor(sym.Bytes("served_header", 4))
+		blk.BlockHeader.Body.Slot = sym.U64("served_slot")
+		sym.Assume((blk.BlockHeader.Body.Slot == point.Slot) == sameSlot)
 		h := blk.Hash()
 		sym.Assume(bytes.Equal(h[:], point.Hash) == matches)
 		raw := []byte{0x84, 0, 0, 0, 0}
@@ -73,6 +76,11 @@ func GetBlock() {
 		real, err := ledger.NewBlockFromCbor(ledger.BlockTypeShelley, raw)
 		if err != nil {
 			panic(err)
+		}
+		if sameSlot {
+			point.Slot = real.SlotNumber()
+		} else if point.Slot == real.SlotNumber() {
+			point.Slot++
 		}
 		if matches {
 			point.Hash = real.Hash().Bytes()
